@@ -9,6 +9,13 @@ HOOKS = dict(
 )
 
 ENGINES = [
+    dict(name="hist_fuzz", path="/verif/harness/hist/hist_fuzz.cpp", serves_properties=["C01", "C03", "C04", "C06", "C07", "C08", "C10", "C11"],
+         kind_free_text="libFuzzer (clang, ASan+UBSan) on the same structure-aware decoder and interpreter; thorough tier only"),
+    dict(name="kern_enum", path="/verif/harness/props/kern_enum.cpp", serves_properties=["C13", "C14"],
+         kind_free_text="complete grid enumerator for the symbol kernels and the field tables against byte-wise / shift-and-reduce references"),
+    dict(name="prng_enum", path="/verif/harness/props/prng_enum.cpp", serves_properties=["C19"], kind_free_text="complete enumeration of the 2^31-2 PRNG states against integer Park-Miller"),
+    dict(name="blk_enum", path="/verif/harness/props/blk_enum.cpp", serves_properties=["C20"], kind_free_text="complete small range + seeded structured sampling of the blocking structure against integer RFC 5052"),
+    dict(name="mat_rc", path="/verif/harness/props/mat_rc.cpp", serves_properties=["C17", "C18"], kind_free_text="rapidcheck-driven stateful model-based sequences over sparse/dense GF(2) matrices, solver differential, popcount enumeration"),
     dict(name="hist_rc", path="/verif/harness/hist/hist_rc.cpp",
          serves_properties=["C01", "C02", "C03", "C04", "C05", "C06", "C07", "C08", "C09", "C10", "C11", "C12", "C15", "C16"],
          kind_free_text="rapidcheck-generated (and enumerated) API call histories executed against the real library through a C shim; in-interpreter oracles from independent references (RFC 5170 construction, Vandermonde RS generator, GF(2) determinability, peeling closure, allocation accounting via sanitizer hooks); shrinking by rapidcheck + step-wise minimisation; text replay files"),
@@ -56,7 +63,7 @@ TEXT = {
                 design_ref="DESIGN.md section 6 C19", note="64-bit integer Park-Miller and the RFC expression evaluated in the harness; 128-bit exact floor where s'*maxv < 2^53", technique="exhaustive state enumeration against exact integer arithmetic"),
     "C20": dict(level="exploration: complete for T, B up to 1536 (4096 thorough) plus seeded boundary-biased sampling of the full 32-bit range, against RFC 5052 in 64-bit integer arithmetic",
                 design_ref="DESIGN.md section 6 C20", note="blocking_struct.c compiled by TU inclusion (printf compiled out)", technique="exhaustive small-range enumeration plus seeded random sampling against integer RFC 5052 arithmetic"),
-    "C16": dict(level="exploration, exhaustive over the small code family: every (k, r) in 0..17 x 0..12 is offered; for each accepted pair the code is read off the encoder and must be a d x l product code, the encoder must satisfy every check on generated payloads, and the decoder is run on every one of the 2^n received subsets (thorough; quick: complete for n <= 13, 5000 seeded patterns for larger codes) through both APIs with finish, plus orders and release points, against exact GF(2) determinability",
+    "C16": dict(level="exploration, exhaustive over the small code family: every (k, r) in 0..17 x 0..12 is offered; for each accepted pair the code is read off the encoder and must be a d x l product code, the encoder must satisfy every check on generated payloads, and the decoder is run on every one of the 2^n received subsets for n <= 13 (quick) / n <= 20 (thorough) and on 5000 / 400000 seeded patterns of each larger code through both APIs with finish, plus orders and release points, against exact GF(2) determinability",
                 design_ref="DESIGN.md section 6 C16", note="oracle equations are the ones observed from the library's own encoder after passing the structure predicate; allocation accounting via sanitizer hooks", technique="exhaustive pattern enumeration (history interpreter) with structure predicate and GF(2) determinability oracle"),
     "C17": dict(level="exploration: generated operation sequences over a pool of sparse matrices with a set-of-pairs model; every live matrix is fully traversed (rows, columns, links, find) after every operation; freed memory via AddressSanitizer, completeness of free via allocation hooks",
                 design_ref="DESIGN.md section 6 C17", note="in-range arguments only; _opt copies and copy_filled_matrix into fresh destinations", technique="stateful model-based property testing (rapidcheck choice stream, set model)"),
